@@ -21,8 +21,9 @@ Line protocol
   gfill e=2 a=7 n=1005        n global publications
   q c=1                       queue length
   rs n=5 | conc pubs=3 n=20 cs=2 | concsub cs=2 rounds=200   run-service / concurrent-publisher / concurrent-subscriber cases
-  ops: `;`-separated  s.c.e.t.g | u.c.e.t | f.c.e.fn | p.c.e.args | g.e.args | c.c   (args `_`-separated)
-Observation tokens: s+ s0 dup bad x q u c [ ] i<id>:<args> g:<centres> blocked
+  ops: `;`-separated  s.c.e.t.g | u.c.e.t | f.c.e.fn | p.c.e.args | g.e.args | c.c | gs.e.c | gu.e.c  (args `_`-separated;
+       gs/gu = direct Subscribe/Unsubscribe(name, centre) on the exported global centre)
+Observation tokens: s+ s0 dup bad x q u c [ ] i<id>:<args> g:<centres> gs gu blocked
 -/
 namespace Cell2v.Driver.C17
 open Cell2v.Driver Cell2v.Events
@@ -38,6 +39,8 @@ def parseOp (s : String) : Option SOp :=
   | ["p", c, e, a] => do pure (.pub (← c.toNat?) (← e.toNat?) (parseNats "_" a))
   | ["g", e, a] => do pure (.gpub (← e.toNat?) (parseNats "_" a))
   | ["c", c] => do pure (.clear (← c.toNat?))
+  | ["gs", e, c] => do pure (.gsub (← e.toNat?) (← c.toNat?))
+  | ["gu", e, c] => do pure (.gunsub (← e.toNat?) (← c.toNat?))
   | _ => none
 
 def parseOps (s : String) : Option (List SOp) :=
@@ -59,6 +62,8 @@ def showTok : Tok → String
   | .inv _ _ _ id args _ => s!"i{id}:{joinNats "." args}"
   | .gpub _ _ grew => s!"g:{joinNats "." grew}"
   | .blocked => "blocked"
+  | .gsub .. => "gs"
+  | .gunsub .. => "gu"
 
 def showOut (toks : List Tok) : String := " ".intercalate (toks.reverse.map showTok)
 
@@ -170,6 +175,9 @@ structure Mon where
   unsubbed : List Nat := []
   cleared : List Nat := []
   stack : List MFrame := []
+  reg : List (Nat × Nat) := []      -- (name, centre): who is registered with the global centre, per the API's contract
+  flag : List (Nat × Nat) := []     -- (centre, name): lists that registered themselves (first GSubscribe … last listener gone)
+  touched : List (Nat × Nat) := []  -- (name, centre) pairs somebody (un)registered by hand
   dead : Bool := false         -- the case was abandoned after a hang
 
 def Mon.tm (m : Mon) (t : Nat) : Option Tmpl := (m.tmpls.find? (fun x => x.1 == t)).map (·.2)
@@ -187,6 +195,8 @@ def opName : SOp → String
   | .pub c e a => s!"p.{c}.{e}.{joinNats "_" a}"
   | .gpub e a => s!"g.{e}.{joinNats "_" a}"
   | .clear c => s!"c.{c}"
+  | .gsub e c => s!"gs.{e}.{c}"
+  | .gunsub e c => s!"gu.{e}.{c}"
 
 /-- effect of a completed script operation, as the API documents it; `tok` = what the implementation did -/
 def monOp (m : Mon) (op : SOp) (tok : String) : R :=
@@ -205,7 +215,12 @@ def monOp (m : Mon) (op : SOp) (tok : String) : R :=
       match m.cs[c]?, m.tm t with
       | some ct, some tm =>
         if !ct.running then viol "subscribed-on-cleared-centre" (opName op)
-        else .ok { m with used := t :: m.used, subs := m.subs ++ [{ c, e, id := t, bound := tm.bound, fn := tm.fn, glob := g && !ct.light }] }
+        else
+          let m := { m with used := t :: m.used, subs := m.subs ++ [{ c, e, id := t, bound := tm.bound, fn := tm.fn, glob := g && !ct.light }] }
+          -- GSubscribe registers the centre when its list is not registered yet
+          if g && !ct.light && !m.flag.contains (c, e) then
+            .ok { m with flag := (c, e) :: m.flag, reg := if m.reg.contains (e, c) then m.reg else (e, c) :: m.reg }
+          else .ok m
       | _, _ => viol "trace-shape" s!"{opName op} answered {tok}"
     else if tok == "s0" then
       match m.cs[c]?, m.tm t with
@@ -218,8 +233,12 @@ def monOp (m : Mon) (op : SOp) (tok : String) : R :=
     else viol "trace-shape" s!"{opName op} answered {tok}"
   | .unsub c e t =>
     if tok == "u" then
-      .ok { m with subs := m.subs.filter (fun l => !(l.c == c && l.e == e && l.id == t)),
-                   unsubbed := if (m.lis c e).any (fun l => l.id == t) then t :: m.unsubbed else m.unsubbed }
+      let m := { m with subs := m.subs.filter (fun l => !(l.c == c && l.e == e && l.id == t)),
+                        unsubbed := if (m.lis c e).any (fun l => l.id == t) then t :: m.unsubbed else m.unsubbed }
+      -- the last listener of a registered list deregisters the centre
+      if m.flag.contains (c, e) && (m.lis c e).isEmpty then
+        .ok { m with flag := m.flag.filter (· != (c, e)), reg := m.reg.filter (· != (e, c)) }
+      else .ok m
     else if tok == "bad" then .ok m else viol "trace-shape" s!"{opName op} answered {tok}"
   | .unsubfn c e f =>
     if tok == "u" then
@@ -232,6 +251,8 @@ def monOp (m : Mon) (op : SOp) (tok : String) : R :=
     if tok == "c" then
       .ok { m with cleared := (m.subs.filter (fun l => l.c == c)).map (·.id) ++ m.cleared,
                    subs := m.subs.filter (fun l => !(l.c == c)),
+                   reg := m.reg.filter (fun x => !(m.flag.contains (x.2, x.1) && x.2 == c)),
+                   flag := m.flag.filter (fun x => !(x.1 == c)),
                    cs := match m.cs[c]? with | some ct => m.cs.set c { ct with running := false } | none => m.cs }
     else if tok == "bad" then .ok m else viol "trace-shape" s!"{opName op} answered {tok}"
   | .gpub e a =>
@@ -239,11 +260,13 @@ def monOp (m : Mon) (op : SOp) (tok : String) : R :=
       let grew := parseNats "." (tok.drop 2).toString
       let idx := List.range m.cs.length
       -- every centre with a live global subscription and room in its queue receives it …
+      -- (registered = live global subscription whose registration nobody removed by hand, or registered by hand / per the API contract)
       let missed := idx.filter (fun i => match m.cs[i]? with
-        | some ct => (m.subs.any (fun l => l.c == i && l.e == e && l.glob && !l.fuzzy)) && ct.queue.length < 999 && !grew.contains i
+        | some ct => ((m.subs.any (fun l => l.c == i && l.e == e && l.glob && !l.fuzzy) && !m.touched.contains (e, i))
+                      || m.reg.contains (e, i)) && ct.queue.length < 999 && !grew.contains i
         | none => false)
-      -- … exactly once, and no centre without a subscription to that name does
-      let extra := grew.filter (fun i => !(m.subs.any (fun l => l.c == i && l.e == e)))
+      -- … exactly once, and no centre that is not registered for that name does
+      let extra := grew.filter (fun i => !(m.reg.contains (e, i)))
       let full := grew.filter (fun i => match m.cs[i]? with | some ct => ct.queue.length ≥ 999 | none => true)
       if !missed.isEmpty then viol "global-missed-centre" s!"{opName op} centres {missed} got {tok}"
       else if !extra.isEmpty then viol "global-delivered-to-unsubscribed-centre" s!"{opName op} centres {extra}"
@@ -251,6 +274,12 @@ def monOp (m : Mon) (op : SOp) (tok : String) : R :=
       else if grew.eraseDups.length != grew.length then viol "global-delivered-twice" s!"{opName op} {tok}"
       else .ok { m with cs := m.cs.mapIdx (fun i ct => if grew.contains i then { ct with queue := ct.queue ++ [(e, a)] } else ct) }
     else viol "trace-shape" s!"{opName op} answered {tok}"
+  | .gsub e c =>
+    if tok == "gs" then .ok { m with reg := if m.reg.contains (e, c) then m.reg else (e, c) :: m.reg, touched := (e, c) :: m.touched }
+    else if tok == "bad" then .ok m else viol "trace-shape" s!"{opName op} answered {tok}"
+  | .gunsub e c =>
+    if tok == "gu" then .ok { m with reg := m.reg.filter (· != (e, c)), touched := (e, c) :: m.touched }
+    else if tok == "bad" then .ok m else viol "trace-shape" s!"{opName op} answered {tok}"
   | .pub c e a =>
     match m.cs[c]? with
     | none => if tok == "bad" then .ok m else viol "trace-shape" s!"{opName op} answered {tok}"
